@@ -12,6 +12,8 @@ mod vals;
 mod c03;
 mod c02;
 mod c04;
+mod c06;
+mod c11;
 mod alloc;
 mod c17;
 
@@ -38,6 +40,8 @@ fn main() {
         "c03" => c03::run(&cfg),
         "c02" => c02::run(&cfg),
         "c04" => c04::run(&cfg),
+        "c06" => c06::run(&cfg),
+        "c11" => c11::run(&cfg),
         "c17" => c17::run(&cfg),
         _ => {
             eprintln!("unknown monitor {name}");
